@@ -107,7 +107,7 @@ def group_table(report, repo, rule):
       if order != ['setup']:
         return ('setup-gate: setup did not complete, yet sequences %s ran '
                 '(neither main nor teardown may run)' % order)
-      src = p.value_of(rv.id) if isinstance(rv, ast.Name) else rv
+      src = cfgm.path_resolve(p, rv, before_index=len(p.steps) - 1)
       if not (isinstance(src, ast.Call) and seq_kind(src) == 'setup'):
         return 'setup-gate: must return the setup result'
       return None
@@ -122,7 +122,7 @@ def group_table(report, repo, rule):
       return 'group result is not _more_critical(main result, teardown result)'
     srcs = []
     for a in rv.args:
-      s = p.value_of(a.id) if isinstance(a, ast.Name) else a
+      s = cfgm.path_resolve(p, a, before_index=len(p.steps) - 1)
       if isinstance(s, ast.Call) and seq_kind(s):
         srcs.append(seq_kind(s))
       elif ends_with(dotted(s) or '', '_ExecutorReturn.CONTINUE'):
